@@ -662,6 +662,7 @@ class Type2TagMemoryReader(object):
         assert isinstance(tag, Type2Tag)
         self._data_from_tag = bytearray()
         self._data_in_cache = bytearray()
+        self._uncertain = set()
         self._tag = tag
 
     def __len__(self):
@@ -702,9 +703,18 @@ class Type2TagMemoryReader(object):
         index = 0
         while index < stop:
             data = self._data_in_cache[index:index+4]
-            if data != self._data_from_tag[index:index+4]:
+            if ((data != self._data_from_tag[index:index+4]
+                 or index in self._uncertain)):
                 self._tag.sector_select(index >> 10)
-                self._tag.write(index >> 2, data)
+                try:
+                    self._tag.write(index >> 2, data)
+                except Type2TagCommandError:
+                    # The tag may have executed the command (only
+                    # the response was lost), the page content is
+                    # unknown until it has been written again.
+                    self._uncertain.add(index)
+                    raise
+                self._uncertain.discard(index)
                 self._data_from_tag[index:index+4] = data
             index += 4
 
